@@ -586,6 +586,9 @@ def _has_cond(t: Term, c: Term) -> bool:
 # ----------------------------------------------------------------------------------------------
 # structure
 # ----------------------------------------------------------------------------------------------
+METHOD_NAMES: set = set()  # filled by Model: names that are methods (not fields / properties) of in-repo classes
+
+
 def mk_attr(base: Term, name: str) -> Term:
     if base[0] == "sym":
         return ("sym", base[1] + "." + name)
@@ -598,6 +601,8 @@ def mk_attr(base: Term, name: str) -> Term:
         for f, v in base[2]:
             if f == name:
                 return v
+        if name in METHOD_NAMES:
+            return ("attr", base, name)  # a method of the changed record: not the method of the record it was copied from
         return mk_attr(base[1], name)
     if base[0] == "ite":
         return mk_ite(base[1], mk_attr(base[2], name), mk_attr(base[3], name))
